@@ -87,27 +87,61 @@ def norm_content(c: dict) -> dict:
     return c
 
 
-def functions_of(c: dict) -> dict:
-    """python function name -> {"params", "body"} for every function of the model (insertion order = use order)."""
-    fns: dict = {}
+def functions_of(c: dict) -> tuple[dict, dict]:
+    """(python function name -> {"params", "body"}, use site -> python function name).
 
-    def add(tag: str, f: dict):
-        fns[tag] = {"params": list(f["params"]), "body": [{"k": "ret", "e": f["e"]}]}
+    Use sites: ("iv", name) ("ip", name) ("der", name) ("rxn", name) ("st", reaction, variable).  Equal function
+    records (same parameters, same expression) are rendered ONCE: the components share one Python function, as in
+    hand-written models (`def f(s, p, k)` used by two reactions with different argument lists)."""
+    import json
+
+    fns: dict = {}
+    by_record: dict = {}
+    site: dict = {}
+
+    def add(tag: str, where: tuple, f: dict):
+        key = json.dumps([list(f["params"]), f["e"]], sort_keys=True)
+        if key not in by_record:
+            by_record[key] = tag
+            fns[tag] = {"params": list(f["params"]), "body": [{"k": "ret", "e": f["e"]}]}
+        site[where] = by_record[key]
 
     for j, (n, v) in enumerate(c["init"].items()):
         if v["k"] == "ia":
-            add(f"f_iv{j}", v["fn"])
+            add(f"f_iv{j}", ("iv", n), v["fn"])
     for j, (n, v) in enumerate(c["pars"].items()):
         if v["k"] == "ia":
-            add(f"f_ip{j}", v["fn"])
+            add(f"f_ip{j}", ("ip", n), v["fn"])
     for j, (n, d) in enumerate(c["der"].items()):
-        add(f"f_d{j}", d["fn"])
+        add(f"f_d{j}", ("der", n), d["fn"])
     for j, (n, r) in enumerate(c["rxn"].items()):
-        add(f"f_r{j}", r["fn"])
+        add(f"f_r{j}", ("rxn", n), r["fn"])
         for m, (v, co) in enumerate(r["st"].items()):
             if co["k"] == "calc":
-                add(f"f_r{j}_s{m}", co["fn"])
-    return fns
+                add(f"f_r{j}_s{m}", ("st", n, v), co["fn"])
+    return fns, site
+
+
+def shared_functions(c: dict) -> list:
+    """use sites that share a Python function with another site but pass different argument lists"""
+    _, site = functions_of(c)
+
+    def args_of(w):
+        if w[0] == "iv":
+            return c["init"][w[1]]["args"]
+        if w[0] == "ip":
+            return c["pars"][w[1]]["args"]
+        if w[0] == "der":
+            return c["der"][w[1]]["args"]
+        if w[0] == "rxn":
+            return c["rxn"][w[1]]["args"]
+        return c["rxn"][w[1]]["st"][w[2]]["args"]
+
+    groups: dict = {}
+    for w, fn in site.items():
+        groups.setdefault(fn, []).append(w)
+    return [[list(w) for w in ws] for ws in groups.values()
+            if len({tuple(args_of(w)) for w in ws}) > 1]
 
 
 def build_model(c: dict, moddir: Path, modname: str):
@@ -116,35 +150,35 @@ def build_model(c: dict, moddir: Path, modname: str):
     from mxlpy import Model
     from mxlpy.types import Derived, InitialAssignment
 
-    fns = functions_of(c)
+    fns, site = functions_of(c)
     src = render.module_src({**HELPERS, **fns}, style=STYLE)
     render.write_module(moddir, modname, src)
     mod = render.load_module(moddir, modname)
+    fn = lambda *w: getattr(mod, site[w])  # noqa: E731
     m = Model()
-    ivn = {n: j for j, n in enumerate(c["init"])}
     for n in c["vars"]:
         v = c["init"][n]
         if v["k"] == "ia":
-            m.add_variable(n, InitialAssignment(fn=getattr(mod, f"f_iv{ivn[n]}"), args=list(v["args"])))
+            m.add_variable(n, InitialAssignment(fn=fn("iv", n), args=list(v["args"])))
         else:
             m.add_variable(n, float(frac(v["v"])))
-    for j, (n, v) in enumerate(c["pars"].items()):
+    for n, v in c["pars"].items():
         if v["k"] == "ia":
-            m.add_parameter(n, InitialAssignment(fn=getattr(mod, f"f_ip{j}"), args=list(v["args"])))
+            m.add_parameter(n, InitialAssignment(fn=fn("ip", n), args=list(v["args"])))
         else:
             m.add_parameter(n, float(frac(v["v"])))
-    for j, (n, d) in enumerate(c["der"].items()):
-        m.add_derived(n, getattr(mod, f"f_d{j}"), args=list(d["args"]))
-    for j, (n, r) in enumerate(c["rxn"].items()):
+    for n, d in c["der"].items():
+        m.add_derived(n, fn("der", n), args=list(d["args"]))
+    for n, r in c["rxn"].items():
         st = {}
-        for k, (v, co) in enumerate(r["st"].items()):
+        for v, co in r["st"].items():
             if co["k"] == "num":
                 st[v] = float(frac(co["v"]))
             elif co["fn"]["e"] == {"k": "var", "name": "a"} and len(co["args"]) == 1:
                 st[v] = co["args"][0]        # the named form of the public API
             else:
-                st[v] = Derived(fn=getattr(mod, f"f_r{j}_s{k}"), args=list(co["args"]))
-        m.add_reaction(n, getattr(mod, f"f_r{j}"), args=list(r["args"]), stoichiometry=st)
+                st[v] = Derived(fn=fn("st", n, v), args=list(co["args"]))
+        m.add_reaction(n, fn("rxn", n), args=list(r["args"]), stoichiometry=st)
     return m, src
 
 
